@@ -12,7 +12,7 @@ from .vals import Val
 from . import ops
 from .ops import Unsupported
 from . import classes as C
-from .trusted import View, RangeV, LazySeq
+from .trusted import View, RangeV, LazySeq, KeysTuple, TypeSet
 
 ALLOC0 = z3.Int("alloc0")          # references below alloc0 existed before the call
 FEAS_TIMEOUT_MS = 1200
@@ -354,7 +354,7 @@ class Executor(object):
 
     def lift(self, v):
         """Meta constant -> Val where that is meaningful."""
-        if isinstance(v, (View, RangeV, LazySeq)):
+        if isinstance(v, (View, RangeV, LazySeq, KeysTuple, TypeSet)):
             return v
         if isinstance(v, Meta):
             p = v.py
@@ -469,6 +469,12 @@ class Executor(object):
             alts = [(V.is_type(v), ("val", V.VStr(nm))), (V.is_fun(v), ("val", V.VStr(fun_name(Val.fid(v))))),
                     (z3.Not(z3.Or(V.is_type(v), V.is_fun(v))), ("raise", AttributeError))]
             return self.apply_op(st, alts, "__name__")
+        if attr == "__class__" and z3.is_expr(v):
+            return [(st, ("val", V.VType(ops.type_id(v, C.cls_of))))]
+        from . import builtins_model as _B
+        if z3.is_expr(v) and attr not in _B._VM:
+            # not a method of a builtin value: attribute of an instance the verifier knows nothing about
+            return self.env.trusted.getattr_dyn(self, st, [v, V.S(attr)], "." + attr)
         # a Val of unknown static class: methods of builtin containers / strings
         return [(st, ("val", BoundMeth(v, attr)))]
 
@@ -605,6 +611,8 @@ class Executor(object):
                 if fn is None:
                     raise Unsupported("binop on meta")
                 return [(s, ("val", self.meta_or_val(fn(a.py, b.py))))]
+            if isinstance(a, Meta) and isinstance(b, KeysTuple) and isinstance(e.op, ast.Add) and isinstance(a.py, tuple):
+                return [(s, ("val", TypeSet(a.py, b.d)))]
             if isinstance(a, Meta) or isinstance(b, Meta):
                 raise Unsupported("binop meta/val: %s" % ast.unparse(e))
             if isinstance(e.op, ast.Add):
